@@ -24,6 +24,7 @@ E = {
  'merge': (2, INP, 'C'), 'set_difference': (2, INP, 'C'), 'set_intersection': (2, INP, 'C'), 'set_symmetric_difference': (2, INP, 'C'), 'set_union': (2, INP, 'C'),
 }
 NONEMPTY = {'iter_swap'}
+BIDI_ONLY = {'copy_backward', 'copy_backward_overlap', 'move_backward', 'reverse', 'reverse_copy', 'shift_right', 'shift_right_neg'}
 MERGE = {'merge', 'set_difference', 'set_intersection', 'set_symmetric_difference', 'set_union'}
 
 def open_ids():
@@ -57,11 +58,58 @@ def grid(out, ns, ms, it, cmp, elem, ub, only=None):
             for m in (ms if ranges == 2 else [0]):
                 out.append(one(e, n, m, it, cmp, elem, ub))
 
+# per-entry size caps (cost grows fastest for the algorithms that write through a data-dependent output position)
+def allowed(entry, n, m, tier):
+    q = tier == 'quick'
+    if entry in MERGE: return n + m <= (5 if q else 7)
+    if entry == 'find_end': return n + m <= (6 if q else 7)
+    if entry in ('is_permutation3', 'is_permutation4'): return n <= (4 if q else 5)
+    if entry == 'equal_range': return n <= (4 if q else 5)
+    return True
+
 def queries(tier, prop='C06'):
     ub = prop == 'C02'
+    kf = open_ids()
     out = []
     if tier == 'quick':
-        grid(out, range(0, 5), range(0, 4), 0, 0, 0, ub)
+        nmax, mmax = 4, 3
+        grid(out, range(0, nmax + 1), range(0, mmax + 1), 0, 0, 0, ub)               # pointers, default comparator: every length
+        for cmp in (1, 2):                                                          # greater / key-only comparator and equivalence
+            grid(out, (1, 3, 4), (0, 2, 3), 0, cmp, 0, ub)
+        grid(out, (0, 1, 3, 4), (0, 1, 3), 1, 0, 0, ub)                              # forward-only iterators
+        grid(out, (0, 2, 4), (0, 2), 2, 0, 0, ub, only=BIDI_ONLY)                    # bidirectional iterators: the algorithms that need them
+        grid(out, (0, 1, 3), (0, 2), 3, 0, 0, ub)                                    # single-pass input / write-only output iterators
     else:
-        grid(out, range(0, 7), range(0, 5), 0, 0, 0, ub)
-    return out
+        nmax, mmax = 6, 4
+        grid(out, range(0, nmax + 1), range(0, mmax + 1), 0, 0, 0, ub)
+        for cmp in (1, 2):
+            grid(out, range(0, 6), range(0, 4), 0, cmp, 0, ub)
+        for it in (1, 2, 3):
+            grid(out, range(0, 6), range(0, 4), it, 0, 0, ub)
+        grid(out, (0, 1, 2, 3, 4), (0, 1, 2, 3), 2, 2, 0, ub)
+        grid(out, (0, 1, 3, 5), (0, 2, 3), 0, 0, 1, ub)                              # struct element (key, tag), operators look at the key only
+        grid(out, (0, 1, 3, 4), (0, 2, 3), 1, 0, 1, ub)
+    out = [q for q in out if allowed(q['entry'][2:], q['cfg']['LN'], q['cfg']['LM'], tier)]
+    # configurations that lie completely inside an open known-finding region would be vacuous: skipped while the finding is open
+    def inside(q):
+        c = q['cfg']
+        if q['entry'] == 'q_equal4' and 'C06_equal4_nonrandom_length' in kf: return c['IT'] != 0 and c['LN'] != c['LM']
+        if q['entry'] == 'q_is_permutation4' and 'C06_is_permutation4_nonrandom_length' in kf: return c['IT'] != 0 and c['LN'] != c['LM']
+        return False
+    out = [q for q in out if not inside(q)]
+    if ub:  # C02 rides on a subset: the largest and the empty length of every configuration
+        keep = {}
+        for q in out:
+            c = q['cfg']
+            k = (q['entry'], c['IT'], c['CMP'], c['ELEM'])
+            keep.setdefault(k, []).append(q)
+        out = []
+        for k, qs in keep.items():
+            qs.sort(key=lambda q: (q['cfg']['LN'] + q['cfg']['LM'], q['cfg']['LN']))
+            out += [qs[0], qs[-1]] if len(qs) > 1 else qs
+    seen = set(); res = []
+    for q in out:
+        k = (q['entry'], tuple(sorted(q['cfg'].items())))
+        if k not in seen:
+            seen.add(k); res.append(q)
+    return res
